@@ -97,7 +97,7 @@ def _tree(draw):
         parent = draw(st.sampled_from(dirs))
         name = "ln%d" % i
         p = (parent + "/" + name) if parent else name
-        style = draw(st.sampled_from(["rel", "abs", "chain", "dangling", "cyclic", "climb", "rel"]))
+        style = draw(st.sampled_from(["rel", "abs", "chain", "dangling", "cyclic", "climb", "rel", "climbhit"]))
         if style in ("rel", "abs") and targets:
             t = draw(st.sampled_from(targets))
             links[p] = (os.path.relpath(t, parent or ".") if style == "rel" else "/" + t, style)
@@ -108,6 +108,10 @@ def _tree(draw):
             links[p] = ("no-such-target", style)
         elif style == "cyclic":
             links[p] = (name, style)
+        elif style == "climbhit" and targets:
+            # climbs above the archive root; clamped at the root the path would name an existing member
+            t = draw(st.sampled_from(targets))
+            links[p] = ("../" * (parent.count("/") + (2 if parent else 1) + draw(st.integers(0, 1))) + t, "climb")
         elif style == "climb":
             links[p] = ("../" * (parent.count("/") + 2 if parent else 1) + "outside.txt", style)
     order = draw(st.permutations(sorted(list(files) + list(meta) + list(links))))
